@@ -139,7 +139,7 @@ func (w *World) verifyFunction(fn *ssa.Function, ct *Contract, tag string, safeA
 	}
 	seenGuard := map[string]bool{}
 	for _, ob := range vc.obls {
-		if ob.Kind == "safe" {
+		if ob.Kind == "safe" || ob.Sub == "auto" || strings.Contains(ob.Name, "@inl:") {
 			continue
 		}
 		// every obligation's program point must be reachable under the assumptions
